@@ -158,6 +158,23 @@ pub fn verif_estimator_bounds(
 }
 pub use self::union::HllUnion;
 
+/// `[raw HLL estimate, bitmap estimate, composite estimate]` of a [`estimator::HipEstimator`] in the
+/// given state, for the external verification harness (feature `verif-hooks`).
+#[cfg(feature = "verif-hooks")]
+pub fn verif_estimator_parts(
+    lg_config_k: u8,
+    kxq0: f64,
+    kxq1: f64,
+    cur_min: u8,
+    num_at_cur_min: u32,
+) -> [f64; 3] {
+    let mut est = estimator::HipEstimator::new(lg_config_k);
+    est.set_kxq0(kxq0);
+    est.set_kxq1(kxq1);
+    est.set_out_of_order(true);
+    est.verif_parts(lg_config_k, cur_min, num_at_cur_min)
+}
+
 /// Target HLL type.
 ///
 /// See [module level documentation](self) for more details.
